@@ -302,8 +302,30 @@ func randPayload(r *rand.Rand, d int) any {
 	}
 }
 
+func diffJobCfg(w *bufio.Writer, n int, seed int64) {
+	r := rand.New(rand.NewSource(seed))
+	words := []string{"", "", "a", "b", "id-7", "x y", "é"}
+	for c := 0; c < n; c++ {
+		fmt.Fprintf(w, "DC %d jobcfg\n", c)
+		k := r.Intn(6)
+		ids := make([]string, k)
+		for i := range ids {
+			ids[i] = words[r.Intn(len(words))]
+		}
+		gen := fmt.Sprintf("gen%d", r.Intn(3))
+		js, _ := json.Marshal(ids)
+		fmt.Fprintf(w, "D %d load %s %s => s:%s # -\n", c, gen, strings.ReplaceAll(string(js), " ", "%20"), strings.ReplaceAll(varmq.VerifLoadJobConfigs(gen, ids), " ", "%20"))
+		id := words[r.Intn(len(words))]
+		fmt.Fprintf(w, "D %d group %s => s:%s # -\n", c, strings.ReplaceAll(string(mustJSON(id)), " ", "%20"), strings.ReplaceAll(varmq.VerifGroupId(id), " ", "%20"))
+		kind, isNil := r.Intn(3), r.Intn(2) == 0
+		fmt.Fprintf(w, "D %d helper %d %v => s:%s # -\n", c, kind, isNil, varmq.VerifNilHelper(kind, isNil))
+	}
+}
+
 func runDiff(name string, n int, seed int64, w *bufio.Writer) bool {
 	switch name {
+	case "jobcfg":
+		diffJobCfg(w, n, seed)
 	case "fifo":
 		diffFifo(w, n, seed)
 	case "pq":
